@@ -56,6 +56,17 @@ static int process_mrelease(int pidfd, unsigned int flags) noexcept {
   return ::syscall(__NR_process_mrelease, pidfd, flags);
 }
 
+// Read a kill-accounting xattr as a counter. The user.* copies are writable
+// by the cgroup's owner, so anything that is not a number counts as 0 instead
+// of throwing out of the kill path.
+static int xattrCounterValue(const std::string& str) {
+  try {
+    return str != "" ? std::stoi(str) : 0;
+  } catch (const std::exception&) {
+    return 0;
+  }
+}
+
 static int getMsSince(std::chrono::steady_clock::time_point start) {
   return std::chrono::duration_cast<std::chrono::milliseconds>(
              std::chrono::steady_clock::now() - start)
@@ -670,7 +681,7 @@ void BaseKillPlugin::reportKillInitiationToXattr(
   const auto reportKillHelperFunc = [this,
                                      &cgroupPath](const std::string& xattr) {
     auto prevXattrStr = getxattr(cgroupPath, xattr);
-    const int prevXattr = std::stoi(prevXattrStr != "" ? prevXattrStr : "0");
+    const int prevXattr = xattrCounterValue(prevXattrStr);
     std::string newXattrStr = std::to_string(prevXattr + 1);
 
     if (setxattr(cgroupPath, xattr, newXattrStr)) {
@@ -689,7 +700,7 @@ void BaseKillPlugin::reportKillCompletionToXattr(
   const auto reportKillHelperFunc = [this, &cgroupPath, numProcsKilled](
                                         const std::string& xattr) {
     auto prevXattrStr = getxattr(cgroupPath, xattr);
-    const int prevXattr = std::stoi(prevXattrStr != "" ? prevXattrStr : "0");
+    const int prevXattr = xattrCounterValue(prevXattrStr);
     std::string newXattrStr = std::to_string(prevXattr + numProcsKilled);
 
     if (setxattr(cgroupPath, xattr, newXattrStr)) {
